@@ -139,6 +139,21 @@ func (e *Env) eval(x Expr) CV {
 		return ne.eval(x.Body)
 	case *EQuant:
 		lo, hi := e.eval(x.Lo).asInt(), e.eval(x.Hi).asInt()
+		if l, ok := isNumLit(lo); ok {
+			if h, ok2 := isNumLit(hi); ok2 && h-l <= 64 {
+				// small constant range: expand
+				var parts []T
+				for i := l; i < h; i++ {
+					ne := e.child()
+					ne.vars[x.Var] = CV{k: cvInt, t: num(i)}
+					parts = append(parts, ne.eval(x.Body).asBool())
+				}
+				if x.Forall {
+					return CV{k: cvBool, t: and(parts...)}
+				}
+				return CV{k: cvBool, t: or(parts...)}
+			}
+		}
 		ne := e.child()
 		bv := "q_" + x.Var
 		for ne.bound[bv] {
